@@ -413,6 +413,9 @@ def check(tier):
                'grammar d;\nstart = { "x" | x } "a" { x | "x" };\nx = "y";\n',
                'grammar d;\nstart = [ x "x" | "x" x ] "a" [ "x" x | x "x" ] "b";\nx = "y";\n',
                'grammar d;\nstart = {{ "plus" | plus }} ";" {{ plus | "plus" }};\nplus = "+";\n']
+    # many diagnostics of one kind at once (whatever is reported must be the same set and order in every run)
+    rspecs += ["grammar d;\nstart = " + " ".join("T%02d" % i for i in range(1, 15)) + ";\n",
+               "grammar d;\nstart = " + " ".join("T%02d" % i for i in range(1, 31)) + ";\n" + "".join('T%02d = "a";\nT%02d = "b";\n' % (i, i) for i in range(16, 31))]
     for _ in range(15 if tier == "quick" else 120):
         rspecs.append(S.gen_wellformed(rng))
     times = 12 if tier == "quick" else 40
